@@ -53,6 +53,9 @@ func (a *verifArchive) goodbye() {
 	a.enc.Encode(FormatGoodbye{FormatHeader: FormatHeader{Size: 16 + 24, Type: CaFormatGoodbye}, Items: []FormatGoodbyeItem{{Offset: 0, Size: 0, Hash: CaFormatGoodbyeTailMarker}}})
 }
 
+// verifRootNotDir: the archive under test has a root entry that is not a directory.
+var verifRootNotDir bool
+
 // verifSandbox: parent/{dest, sentinel, sib/inner}; returns parent and a checker that the
 // world outside dest is unchanged.
 func verifSandbox(setup ...func(parent string)) (parent, dest string, check func()) {
@@ -66,11 +69,15 @@ func verifSandbox(setup ...func(parent string)) (parent, dest string, check func
 		f(parent)
 	}
 	outside := func() int {
-		// the whole (model / jailed) file system except what is beneath the destination
-		if all := vFSList("/"); all != nil {
-			return len(all) - len(vFSList(dest))
+		// the whole (model / jailed) file system except the destination path itself and what is beneath it
+		self := 0
+		if _, err := os.Lstat(dest); err == nil {
+			self = 1
 		}
-		return len(vFSList(parent)) - len(vFSList(dest))
+		if all := vFSList("/"); all != nil {
+			return len(all) - len(vFSList(dest)) - self
+		}
+		return len(vFSList(parent)) - len(vFSList(dest)) - self
 	}
 	before := outside()
 	pst, _ := os.Lstat(parent)
@@ -83,8 +90,10 @@ func verifSandbox(setup ...func(parent string)) (parent, dest string, check func
 		pst2, perr := os.Lstat(parent)
 		vAssert(perr == nil && pst2.Mode() == pst.Mode(), "type or mode of the directory that holds the destination changed")
 		vAssert(outside() == before, "an object was created or removed outside the destination directory")
-		st0, err0 := os.Lstat(dest)
-		vAssert(err0 == nil && st0.IsDir(), "the destination directory itself was removed or replaced (by a symlink?)")
+		if !verifRootNotDir { // (an archive whose root is a file or a link is unpacked *as* the destination path)
+			st0, err0 := os.Lstat(dest)
+			vAssert(err0 == nil && st0.IsDir(), "the destination directory itself was removed or replaced (by a symlink?)")
+		}
 		b, err := os.ReadFile(parent + "/sentinel")
 		vAssert(err == nil && string(b) == "S", "a file outside the destination directory was modified")
 		b, err = os.ReadFile(parent + "/sib/inner")
@@ -315,6 +324,36 @@ func VerifC18_SameNameTwice() {
 	}
 	a.goodbye()
 	_, dest, check := verifSandbox()
+	fs := NewLocalFS(dest, LocalFSOptions{})
+	err := UnTar(context.Background(), bytes.NewReader(a.buf.Bytes()), fs)
+	vCover("untar-returned")
+	_ = err
+	check()
+}
+
+// VerifC18_RootNotDirectory: archives whose first (root) entry is a symlink or a regular file,
+// followed by further named entries, unpacked to a destination path that exists as a directory or
+// does not exist yet: nothing outside the destination path is created or changed - in particular
+// a root symlink must not turn the destination into a link behind which the rest is written.
+func VerifC18_RootNotDirectory() {
+	verifRootNotDir = true
+	a := newVerifArchive()
+	if vChoose("root-kind", 2) == 0 {
+		a.entry(os.ModeSymlink | 0777)
+		a.symlink(verifSymName("target", 4))
+	} else {
+		a.entry(0644)
+		a.payload([]byte("r"))
+	}
+	a.filename(verifSymName("name", 1))
+	a.entry(0644)
+	a.payload([]byte("x"))
+	exists := vChoose("destination-exists", 2) == 1
+	_, dest, check := verifSandbox(func(parent string) {
+		if !exists {
+			os.Remove(parent + "/dest")
+		}
+	})
 	fs := NewLocalFS(dest, LocalFSOptions{})
 	err := UnTar(context.Background(), bytes.NewReader(a.buf.Bytes()), fs)
 	vCover("untar-returned")
